@@ -34,7 +34,15 @@
 #include <typeinfo>
 #include <cxxabi.h>
 
+#ifdef VERIF_COV
+extern "C" void __gcov_dump(void);   // coverage flavour only: workers leave through _exit
+#endif
 namespace sim {
+inline void flush_coverage() {
+#ifdef VERIF_COV
+    __gcov_dump();
+#endif
+}
 
 typedef std::vector<uint8_t> Bytes;
 
@@ -316,7 +324,7 @@ inline ChildResult run_in_child(Engine& e, const Plan& p, int timeout_s = 60) {
         for (char& c : line) if (c == '\n') c = ' ';
         line += "\n";
         ssize_t w = write(out[1], line.data(), line.size()); (void)w;
-        _exit(0);
+        flush_coverage(); _exit(0);
     }
     close(out[1]); close(err[1]);
     std::string so, se; char buf[8192];
@@ -451,7 +459,7 @@ inline int run_batch(Engine& e, const BatchOptions& o) {
             }
             slot[w] = -2;
             write_all(p[1], "D\n");
-            _exit(0);
+            flush_coverage(); _exit(0);
         }
         close(p[1]); fds[w] = p[0]; pids[w] = pid;
     };
